@@ -89,7 +89,9 @@ CrossCommonGraph(g) ==
 GraphSchemas(g) ==
   << [ns |-> <<EntGraph("", "", g)>>], [ns |-> <<EntGraph("N", "N", g)>>],
      [ns |-> <<CommonGraph("", "", g)>>], [ns |-> <<CommonGraph("N", "N", g)>>],
-     [ns |-> <<ActionGraph("", "Action", g)>>], [ns |-> <<ActionGraph("N", "N::Action", g)>>], CrossCommonGraph(g) >>
+     [ns |-> <<ActionGraph("", "Action", g)>>], [ns |-> <<ActionGraph("N", "N::Action", g)>>], CrossCommonGraph(g),
+     \* the same graphs inside a namespace of two segments (what is "the namespace of a qualified name" there?)
+     [ns |-> <<EntGraph("N::M", "N::M", g)>>], [ns |-> <<CommonGraph("N::M", "N::M", g)>>], [ns |-> <<ActionGraph("N::M", "N::M::Action", g)>>] >>
 
 \* names: two namespaces + the empty one; X may be declared as entity (e), common type (c) or not at all (-) in "", in N;
 \* an attribute of N::E refers to X unqualified / qualified with N / with M (undeclared) / __cedar::Long / a built-in name
